@@ -225,8 +225,9 @@ impl Core {
         let mut ans: Vec<(usize, bool, OutVal)> =
             self.spec.layout.iter().map(|s| (*s, false, self.spec.answer(c, *s))).collect();
         if let Some((at, dev)) = &self.spec.deviate_at {
-            if *at == c && !ans.is_empty() {
-                let n = ans.len();
+            // (an answer without entries can only grow)
+            if *at == c && (!ans.is_empty() || matches!(dev, Deviation::Add(_))) {
+                let n = ans.len().max(1);
                 match dev {
                     Deviation::Drop(p) => {
                         ans.remove(p % n);
